@@ -8,32 +8,48 @@ import Ibx.Model.Pop3Send
 namespace Ibx.Tie.Dot
 open Ibx.Model.Pop3Send
 
-/-- the Return-Path line: same format string, one argument (the envelope sender) -/
-theorem returnPath_tie : Gen.Dot.returnPathFmt = some returnPathFmt ∧ Gen.Dot.returnPathArgs = ["from.Address.Address"] := by decide
-/-- the Received line, second printf step: header from the session, mailbox, timestamp -/
-theorem recvd_tie : Gen.Dot.recvdFmt = some recvdFmt ∧ Gen.Dot.recvdArgs = ["recvdHeader", "mb", "tstamp"] := by decide
-/-- the Received line, first printf step in dataHandler: HELO domain, remote host, configured domain -/
+/-
+  The facts are structural (harness/cmd/extract/k1kit.go, dot.go): `$p<i>` is the i-th parameter of the exported
+  Deliver, `$p` a parameter of an unexported helper, `$r` the receiver, `$each(X)` the range variable over X, `$v` a local
+  that is assigned more than once, `$outer(X)` a value computed before the loop that uses it; a local defined once is
+  replaced by its definition and an unexported helper by what it returns.  Local and helper names do not occur.
+-/
+
+/-- the Return-Path line: same format string, one argument (the envelope sender = Deliver's first parameter) -/
+theorem returnPath_tie : Gen.Dot.returnPathFmt = some returnPathFmt ∧ Gen.Dot.returnPathArgs = ["$p0.Address.Address"] := by decide
+/-- the Received line, second printf step: header from the session (third parameter), the mailbox being delivered to
+    (the range variable of the per-mailbox loop), one timestamp taken before the loop in UTC with the fixed-width layout -/
+theorem recvd_tie : Gen.Dot.recvdFmt = some recvdFmt ∧
+    Gen.Dot.recvdArgs = ["$p2", "$each($v.Mailboxes)", "$outer(time.Now().UTC().Format(recvdTimeFmt))"] := by decide
+/-- the Received line, first printf step in the DATA handler: HELO domain, remote host, configured domain -/
 theorem recvdHeader_tie : Gen.Dot.recvdHeaderFmt = some recvdHeaderFmt ∧
-    Gen.Dot.recvdHeaderArgs = ["s.remoteDomain", "s.remoteHost", "s.config.Domain"] := by decide
-/-- the stored source is Return-Path, Received, then the block — in this order, nothing else -/
+    Gen.Dot.recvdHeaderArgs = ["$r.remoteDomain", "$r.remoteHost", "$r.config.Domain"] := by decide
+/-- the stored source is Return-Path, Received, then the block (fourth parameter) — in this order, nothing else, each
+    reader made per mailbox (none hoisted out of the loop) -/
 theorem multiReader_tie : Gen.Dot.multiReaderArgs =
-    some ["strings.NewReader(returnPath)", "strings.NewReader(recvd)", "bytes.NewReader(source)"] := by decide
-/-- dataHandler hands Deliver the header and the bytes of the block exactly as `readDataBlock` (ReadDotBytes) returned them -/
-theorem deliver_tie : Gen.Dot.deliverArgs = some ["s.from", "s.recipients", "recvdHeader", "mailData.Bytes()"] ∧
-    Gen.Dot.mailDataDefs = ["bytes.NewBuffer(msgBuf)"] ∧ Gen.Dot.readsDotBytes = true := by decide
+    some ["strings.NewReader(fmt.Sprintf#0)", "strings.NewReader(fmt.Sprintf#1)", "bytes.NewReader($p3)"] := by decide
+/-- the DATA handler hands Deliver the sender, the recipients, the header and the bytes of the block exactly as
+    textproto's ReadDotBytes returned them (through a bytes.Buffer, which is the identity) -/
+theorem deliver_tie : Gen.Dot.deliverArgs =
+    some ["$r.from", "$r.recipients", "fmt.Sprintf#hdr", "bytes.NewBuffer($r.text.ReadDotBytes()#0).Bytes()"] := by decide
 /-- the timestamp layout has a fixed width in UTC (the harness masks 37 bytes) -/
 theorem timeFmt_tie : Gen.Dot.recvdTimeFmt = some "Mon, 02 Jan 2006 15:04:05 -0700 (MST)" := by decide
 
-/-- RETR: a line scanner (no Split call) over the source with the token limit lifted to Size()+1 … -/
-theorem sendMessage_scanner_tie : Gen.Dot.sendMessageBuffer = some ["nil", "int(msg.Size()) + 1"] ∧
-    Gen.Dot.sendMessageScanner = some ["reader"] ∧ Gen.Dot.sendMessageHasSplit = false := by decide
-/-- … a line is prefixed with "." exactly when it starts with "." (`dotPrefix`) … -/
-theorem sendMessage_dot_tie : Gen.Dot.sendMessageDotTest = [[46]] ∧ Gen.Dot.sendMessageLineRewrites = ["\".\" + line"] := by decide
+/-- RETR: a line scanner (no Split call) over the message's Source() with the token limit lifted to Size()+1 … -/
+theorem sendMessage_scanner_tie : Gen.Dot.sendMessageBuffer = some ["nil", "int($p.Size()) + 1"] ∧
+    Gen.Dot.sendMessageScanner = some ["$p.Source()#0"] ∧ Gen.Dot.sendMessageHasSplit = false := by decide
+/-- … a line is the scanner's Text(), prefixed with "." exactly when it starts with "." (`dotPrefix`), and that is
+    what the loop writes … -/
+theorem sendMessage_dot_tie : Gen.Dot.sendMessageDotTest = [[46]] ∧
+    Gen.Dot.sendMessageLineRewrites = ["$line := $outer(bufio.NewScanner($p.Source()#0)).Text()", "$line = \".\" + $line"] ∧
+    Gen.Dot.sendMessageLoopSends = ["$line"] := by decide
 /-- TOP: the same loop shape -/
-theorem sendMessageTop_scanner_tie : Gen.Dot.sendMessageTopBuffer = some ["nil", "int(msg.Size()) + 1"] ∧
-    Gen.Dot.sendMessageTopScanner = some ["reader"] ∧ Gen.Dot.sendMessageTopHasSplit = false := by decide
-theorem sendMessageTop_dot_tie : Gen.Dot.sendMessageTopDotTest = [[46]] ∧ Gen.Dot.sendMessageTopLineRewrites = ["\".\" + line"] := by decide
+theorem sendMessageTop_scanner_tie : Gen.Dot.sendMessageTopBuffer = some ["nil", "int($p.Size()) + 1"] ∧
+    Gen.Dot.sendMessageTopScanner = some ["$p.Source()#0"] ∧ Gen.Dot.sendMessageTopHasSplit = false := by decide
+theorem sendMessageTop_dot_tie : Gen.Dot.sendMessageTopDotTest = [[46]] ∧
+    Gen.Dot.sendMessageTopLineRewrites = ["$line := $outer(bufio.NewScanner($p.Source()#0)).Text()", "$line = \".\" + $line"] ∧
+    Gen.Dot.sendMessageTopLoopSends = ["$line"] := by decide
 /-- … and every line goes out followed by CR LF (`sendLine`) -/
-theorem pop3Send_tie : Gen.Dot.pop3SendArgs = some ["s.conn", "msg + \"\\r\\n\""] := by decide
+theorem pop3Send_tie : Gen.Dot.pop3SendArgs = some ["$r.conn", "$p + \"\\r\\n\""] := by decide
 
 end Ibx.Tie.Dot
